@@ -1,5 +1,5 @@
 SPECIFICATION TSpec
-CONSTANT Dev = {"UpdateStampsCreator", "NoWriteSetValidation", "CheckpointNotAtomic"}
+CONSTANT Dev = {"UpdateStampsCreator", "NoWriteSetValidation", "CheckpointNotAtomic", "DropNotAtomic"}
 INVARIANT UniqueHolds
 POSTCONDITION Accepted
 CHECK_DEADLOCK FALSE
